@@ -7,8 +7,10 @@ Reading of the statement in the model (ForML.Model.Fs / ForML.Model.Registry):
 * a process death during a registry call = `run fs (crashOps ops k cut)`: `k` atomic micro-operations of the
   call completed, optionally `cut` bytes of the next write; inside a history step (guard + several calls)
   it is `crashIn impl fs step k cut`;
-* a history is a list of events `Ev.step s` (the step runs to its end or raises) and `Ev.crash s k cut` (the process
-  dies inside the step and a new process carries on with what is on disk); `play impl Fs.empty evs` is the tree after it.
+* a history is a list of events `Ev.step s` (the step runs to its end or raises), `Ev.crash s k cut` (the process
+  dies inside the step and a new process carries on with what is on disk) and `Ev.fault s j` (a file-system call of the
+  step raises a transient `OSError` once: the step raises, the process lives on); `play impl Fs.empty evs` is the tree
+  after it.
 
 `Impl.repaired` is the code in /repo (fix commits 3387543, dc51650), `Impl.original` the code before them: the
 theorems named `…_original_…` are about the latter (counterexamples replayed by the harness, findings C05-F1..F4).
@@ -340,6 +342,33 @@ theorem C05_history_publish (evs : List Ev) (dp name v : Nat) (pkg : Pkg)
     ∧ (∀ key, ¬ (releaseP name v <+: key) → vis fs' key = vis fs key) :=
   publish_ok _ (history_good evs) dp name v pkg h
 
+/-- **C05_history_fault_is_crash**: a transient I/O fault (an `OSError` raised once by the file-system call that would
+have been the `j`-th atomic micro-operation of the step, or by a read before it; the process lives on) inside a training
+leaves exactly the tree a process death at that point leaves — for every tree, every variant of the code: `write` and
+`close` absorb nothing. -/
+theorem C05_history_fault_is_crash (impl : Impl) (fs : Fs) (p v ord : Nat) (sts : List (Nat × Bytes)) (j : Nat) :
+    faultIn impl fs (.train p v ord sts) j = crashIn impl fs (.train p v ord sts) j none :=
+  faultIn_train impl fs p v ord sts j
+
+/-- **C05_history_fault_publish**: … and inside a publish it is a process death at that point, or (a member copy failing
+inside `shutil.copytree`, which collects the error and copies the other members before it raises) the tree differs from
+the one before only below the invisible temporary package name and in newly created, still package-less directories. -/
+theorem C05_history_fault_publish (evs : List Ev) (dp name v : Nat) (pkg : Pkg) (j : Nat) :
+    let fs := play Impl.repaired Fs.empty evs
+    faultIn Impl.repaired fs (.publish dp name v pkg) j = crashIn Impl.repaired fs (.publish dp name v pkg) j none
+    ∨ (relListed fs name v = false ∧ QuietPub (faultIn Impl.repaired fs (.publish dp name v pkg) j) fs name v) :=
+  fault_publish_cases _ (history_good evs) dp name v pkg j
+
+/-- **C05_history_fault_invisible**: after any history (with process deaths and faults), a step hit by a transient I/O
+fault is observationally a crashed one plus an error report: a fresh reader sees exactly the previous content — it never
+renumbers, overwrites or accepts what the undisturbed step would have refused — unless the fault came after the last
+micro-operation of a step that had completed without error: then the reader sees its complete, correct result. -/
+theorem C05_history_fault_invisible (evs : List Ev) (s : Step) (j : Nat) :
+    let fs := play Impl.repaired Fs.empty evs
+    ViewEq (faultIn Impl.repaired fs s j) fs
+      ∨ ((exec Impl.repaired fs s).err = none ∧ faultIn Impl.repaired fs s j = (exec Impl.repaired fs s).fs) :=
+  (fault_left _ (history_good evs) s j).2
+
 /-- **C05_history_append_only**: whatever a fresh reader can see after a history (a package, a package member, a
 tag, a state) it sees byte-identical after *any* continuation of that history — completed steps, refused steps,
 process deaths at any point.  (This is also why the process-wide `lru_cache`s `TAGS` / `STATES` / `ARTIFACTS` of a
@@ -354,8 +383,8 @@ theorem C05_history_append_only (evs evs' : List Ev) (key : Path) (n : Node)
   | nil => exact h
   | cons e r ih =>
     simp only [play]
-    obtain ⟨s, hs⟩ := apply_leftBy fs e
-    exact ih _ (apply_append_only fs gd e key n h) (step_left fs gd s _ hs).1
+    obtain ⟨s, hs⟩ := apply_left fs gd e
+    exact ih _ (apply_append_only fs gd e key n h) hs.1
 
 /-! ### non-vacuity: two projects, two releases of the first, three trainings, two process deaths with recovery -/
 
@@ -399,6 +428,23 @@ example : ((exec Impl.repaired (play Impl.repaired Fs.empty (demoEvents.take 2))
     (.publish 1 1 1 (.dir [(0, [9]), (1, [8, 8])]))).calls.head?.bind List.head?)
     = some (.rmtree (packageTmpP 1 1)) := by decide
 
+/-- non-vacuity of the fault model: a transient error at the copy of the first member of a tree publish — `copytree` still
+copies the second member and raises before the rename: nothing is listed; the retry (another build of that version)
+removes the left-over and publishes exactly its own members -/
+example : let fs := faultIn Impl.repaired Fs.empty (.publish 0 0 1 (.dir [(0, [9]), (1, [8, 8])])) 3
+    get fs (packageTmpP 0 1 ++ [.member 1]) = some (.file [8, 8]) ∧ get fs (packageTmpP 0 1 ++ [.member 0]) = none
+    ∧ get fs (packageP 0 1) = none ∧ releasesOf fs 0 = []
+    ∧ (let fs' := play Impl.repaired fs [.step (.publish 0 0 1 (.dir [(0, [7]), (2, [6])]))]
+       releasesOf fs' 0 = [1] ∧ vis fs' (packageP 0 1 ++ [.member 1]) = none
+       ∧ vis fs' (packageP 0 1 ++ [.member 2]) = some (.file [6])) := by decide +kernel
+/-- a fault in the second move of a commit = the process death there; the retry by the same (living) process re-uses the
+number -/
+example : let evs := [Ev.step (.publish 0 0 1 (.file [1])), .step (.train 0 1 1 [(0, [1])]),
+      .fault (.train 0 1 2 [(1, [2]), (2, [3])]) 6, .step (.train 0 1 3 [(3, [2]), (4, [3])])]
+    generationsOf (play Impl.repaired Fs.empty evs) 0 1 = [2, 1]
+    ∧ tagOf (play Impl.repaired Fs.empty evs) 0 1 2 = some ⟨3, [3, 4]⟩
+    ∧ generationsOf (play Impl.repaired Fs.empty (evs.take 3)) 0 1 = [1] := by decide +kernel
+
 /-! ## Part 3 — several writers: handles in processes (`Impl.repaired`)
 
 `evs` ranges over *all* lists of handle events: any number of handles (each bound to a project and an explicit or
@@ -435,20 +481,21 @@ theorem C05_handles_gap_free (evs : List HEv) (p v g : Nat)
 
 /-- **C05_handles_crash_consistent**: after any interleaved history, whatever the next event — any operation through
 any handle (long-lived, with whatever it has memoised, or fresh), run to its end, raising, or with its process killed
-after any number of micro-operations / inside a write — a fresh reader sees exactly the previous content, or the operation
-has completed without error and the reader sees its complete result. -/
+after any number of micro-operations / inside a write, or made to raise by a transient I/O fault at any of them — a fresh
+reader sees exactly the previous content, or the operation has completed without error and the reader sees its complete
+result. -/
 theorem C05_handles_crash_consistent (evs : List HEv) (e : HEv) :
     let w := worldAfter evs
     ViewEq (applyH Impl.repaired w e).fs w.fs
-      ∨ ∃ h op, (e = .run h op ∨ ∃ k cut, e = .die h op k cut)
+      ∨ ∃ h op, (e = .run h op ∨ (∃ k cut, e = .die h op k cut) ∨ ∃ j, e = .fault h op j)
           ∧ (perform Impl.repaired w h op).err = none
           ∧ (applyH Impl.repaired w e).fs = (perform Impl.repaired w h op).w.fs := by
   intro w
   have g2 : Good2 w.fs := playH_good2 evs
-  have key : ∀ h op x, LeftByAct w.fs (actOf w h op) x →
+  have key : ∀ h op x, LeftByActF w.fs (actOf w h op) x →
       ViewEq x w.fs ∨ ((perform Impl.repaired w h op).err = none ∧ x = (perform Impl.repaired w h op).w.fs) := by
     intro h op x hl
-    rcases (act_left w.fs g2 _ (actOf_ok w h op) x hl).2 with hv | ⟨he, hx⟩
+    rcases (act_left_F w.fs g2 _ (actOf_ok w h op) x hl).2 with hv | ⟨he, hx⟩
     · exact Or.inl hv
     · cases hpe : (perform Impl.repaired w h op).err with
       | none => exact Or.inr ⟨rfl, by rw [hx, (perform_act w h op).1]⟩
@@ -459,9 +506,18 @@ theorem C05_handles_crash_consistent (evs : List HEv) (e : HEv) :
           rw [hidle] at hx; simp only [runAct] at hx; rw [hx]; exact ViewEq.refl _
   cases e with
   | run h op =>
-    rcases key h op _ (Or.inl (perform_act w h op).1) with hv | ⟨he, hx⟩
+    rcases key h op _ (Or.inl (Or.inl (perform_act w h op).1)) with hv | ⟨he, hx⟩
     · exact Or.inl hv
     · exact Or.inr ⟨h, op, Or.inl rfl, he, hx⟩
+  | fault h op j =>
+    cases hl : lookupH w.hs h with
+    | none => left; simp only [applyH, hl]; exact ViewEq.refl _
+    | some x =>
+      have hfs : (applyH Impl.repaired w (.fault h op j)).fs = faultTree w.fs (actOf w h op) j := by
+        simp only [applyH, hl, faultTree, (perform_act w h op).2]
+      rcases key h op _ (Or.inr ⟨j, hfs⟩) with hv | ⟨he, hx⟩
+      · exact Or.inl hv
+      · exact Or.inr ⟨h, op, Or.inr (Or.inr ⟨j, rfl⟩), he, hx⟩
   | die h op k cut =>
     cases hl : lookupH w.hs h with
     | none => left; simp only [applyH, hl]; exact ViewEq.refl _
@@ -469,9 +525,57 @@ theorem C05_handles_crash_consistent (evs : List HEv) (e : HEv) :
       have hfs : (applyH Impl.repaired w (.die h op k cut)).fs
           = (runSome w.fs (crashOps (atomsAll (runAct Impl.repaired w.fs (actOf w h op)).calls.flatten) k cut)).1 := by
         simp only [applyH, hl, killProc_fs, (perform_act w h op).2]
-      rcases key h op _ (Or.inr ⟨k, cut, hfs⟩) with hv | ⟨he, hx⟩
+      rcases key h op _ (Or.inl (Or.inr ⟨k, cut, hfs⟩)) with hv | ⟨he, hx⟩
       · exact Or.inl hv
-      · exact Or.inr ⟨h, op, Or.inr ⟨k, cut, rfl⟩, he, hx⟩
+      · exact Or.inr ⟨h, op, Or.inr (Or.inl ⟨k, cut, rfl⟩), he, hx⟩
+
+/-- **C05_handles_fault**: in any interleaved history an operation through any handle that a transient I/O fault makes
+raise leaves — outside a publish — exactly the tree the death of its process at that point would have left, but the
+process, its handles (keys stay resolved, nothing is added to the dumps) and its caches live on; the handle table changes
+at that handle only. -/
+theorem C05_handles_fault (evs : List HEv) (h : Nat) (op : HOp) (j : Nat) (x : Handle)
+    (hl : lookupH (worldAfter evs).hs h = some x) (hnp : ∀ name v pkg, op ≠ .publish name v pkg) :
+    let w := worldAfter evs
+    (applyH Impl.repaired w (.fault h op j)).fs = (applyH Impl.repaired w (.die h op j none)).fs
+    ∧ (applyH Impl.repaired w (.fault h op j)).hs = setH w.hs h (faultHandle w.fs x op)
+    ∧ (applyH Impl.repaired w (.fault h op j)).tags = w.tags := by
+  intro w
+  have hl' : lookupH w.hs h = some x := hl
+  refine ⟨?_, by simp only [applyH, hl'], by simp only [applyH, hl']⟩
+  simp only [applyH, hl', killProc_fs]
+  have hne : ∀ dp name v pkg, actOf w h op ≠ .publish dp name v pkg := by
+    intro dp name v pkg e'
+    rcases actOf_shape w h op with h1 | ⟨_, name', v', pkg', _, h1⟩ | ⟨_, _, _, _, _, _, h1, _⟩ | ⟨_, _, _, _, _, h1, _⟩
+    · rw [h1] at e'; cases e'
+    · cases op with
+      | publish n2 v2 p2 => exact hnp n2 v2 p2 rfl
+      | «open» a b c d => simp [actOf] at h1
+      | look => simp [actOf] at h1
+      | begin a b =>
+        rw [actOf_general w h _ (by intros; simp) (by simp), hl'] at h1
+        simp [plan] at h1
+      | dump a b =>
+        rw [actOf_general w h _ (by intros; simp) (by simp), hl'] at h1
+        dsimp only at h1
+        cases hpe : (plan w.fs x (.dump a b)).err with
+        | some e0 => simp [hpe] at h1
+        | none =>
+          obtain ⟨v0, _, hact⟩ := plan_dump_ok w.fs x a b hpe
+          simp [hpe, hact] at h1
+      | commit =>
+        rw [actOf_general w h _ (by intros; simp) (by simp), hl'] at h1
+        dsimp only at h1
+        cases hpe : (plan w.fs x .commit).err with
+        | some e0 => simp [hpe] at h1
+        | none =>
+          obtain ⟨o0, v0, _, _, hact⟩ := plan_commit_ok w.fs x hpe
+          simp [hpe, hact] at h1
+    · rw [h1] at e'; cases e'
+    · rw [h1] at e'; cases e'
+  have := faultTree_crash w.fs (actOf w h op) j hne
+  simp only [faultTree] at this
+  rw [← (perform_act w h op).2] at this
+  exact this
 
 /-- **C05_handles_commit**: after any interleaved history, a successful commit through ANY handle — long-lived or
 fresh, whatever it has memoised, whoever committed since it was opened or since its states were dumped — (i) addresses a
@@ -729,6 +833,13 @@ example : (dumpSids demoHandles).Nodup ∧ (dumpSids (demoHandles.take 15)).Nodu
     ∧ (lookupH (worldAfter (demoHandles.take 15)).hs 1).map (fun x => (x.dumped, x.done))
         = some ([(11, [3]), (12, [4, 4])], false) := by decide +kernel
 example : (perform Impl.repaired (worldAfter (demoHandles.take 23)) 3 .look).err = some .dead := by decide +kernel
+/-- a transient fault in the commit of handle 1 (after the first move): it raises, the handle lives on; another commit of it
+finds the first state gone (`Level.Invalid`), a new `begin … commit` works and takes the number -/
+example : let w := applyH Impl.repaired (worldAfter (demoHandles.take 15)) (.fault 1 .commit 2)
+    generationsOf w.fs 0 1 = [3, 2, 1] ∧ (lookupH w.hs 1).map (·.done) = some true
+    ∧ (perform Impl.repaired w 1 .commit).err = some .invalid
+    ∧ generationsOf (playH Impl.repaired w [.run 1 (.begin 9 1), .run 1 (.dump 77 [1]), .run 1 .commit]).fs 0 1
+        = [4, 3, 2, 1] := by decide +kernel
 /-- a second commit of the same accessor finds nothing staged (`Level.Invalid`) after creating the generation directory -/
 example : let o := perform Impl.repaired (worldAfter demoHandles) 1 .commit
     o.err = some .invalid ∧ get o.w.fs (generationP 0 1 6) = some .dir ∧ generationsOf o.w.fs 0 1 = [5, 4, 3, 2, 1] := by
